@@ -951,8 +951,24 @@ Definition snapshot_schema : schema :=
 (* ------------------------------------------------------------------ serialisation for the correspondence *)
 Definition o_string (s : string) : out := OL (map (fun a => ON (Z.of_N (N_of_ascii a))) (list_ascii_of_string s)).
 
+(* pre-order fingerprint of a compiled tree: node class and, for functions and operators, WHICH overload was chosen *)
+Fixpoint fingerprint (n : cnode) : list Z :=
+  let many := fix many (l : list cnode) : list Z := match l with [] => [] | x :: t => fingerprint x ++ many t end in
+  match n with
+  | NConst _ _ => [0%Z]
+  | NCol _ _ => [1%Z]
+  | NOp _ i args _ => 2%Z :: Z.of_nat i :: many args
+  | NAnd args => 3%Z :: many args
+  | NOr args => 4%Z :: many args
+  | NCoalesce args _ => 5%Z :: many args
+  | NFunc _ i args _ _ => 6%Z :: Z.of_nat i :: many args
+  | NGetItem e _ => 7%Z :: fingerprint e
+  | NGetter e _ _ => 8%Z :: fingerprint e
+  | NSub1D => [9%Z]
+  end.
+
 Definition o_target (t : ctarget) : out :=
-  OL [o_option o_string (ct_name t); o_string (dtype (ct_expr t)); o_bool (ct_agg t)].
+  OL [o_option o_string (ct_name t); o_string (dtype (ct_expr t)); o_bool (ct_agg t); OL (map ON (fingerprint (ct_expr t)))].
 
 Definition o_query (q : cquery) : out :=
   OL [ON (match cq_pivots q with Some _ => 1 | None => 0 end)%Z;
